@@ -555,6 +555,25 @@ pub fn seq_cfgs(prop: &str, tier: Tier) -> Vec<SeqCfg> {
     v
 }
 
+pub const SEQ_PROPS: [&str; 9] = ["C01", "C02", "C05", "C06", "C07", "C08", "C11", "C14", "C15"];
+
+/// Cross-alphabet pass: the quick-tier configurations of the *other* sequential properties, judged
+/// by `prop`'s clauses - a discrepancy any alphabet reaches is reported by the property owning it.
+pub fn foreign_cfgs(prop: &'static str) -> Vec<SeqCfg> {
+    let mut v = vec![];
+    for other in SEQ_PROPS {
+        if other == prop {
+            continue;
+        }
+        for mut c in seq_cfgs(other, Tier::Quick) {
+            c.name = format!("{}@{}", c.name, prop);
+            c.prop = prop;
+            v.push(c);
+        }
+    }
+    v
+}
+
 fn seq_cfgs_inner(prop: &str, tier: Tier) -> Vec<SeqCfg> {
     match prop {
         "C01" => c01(tier),
